@@ -13,7 +13,7 @@ from .. import roles
 from ..absint import Evaluator, Outcome, SELF, NONE, attr, const, glob, is_const, show, contains
 from ..core import AnalysisError, Report
 from ..listener import model as listener_model
-from ..model import Repo, call_name, calls_in, norm, stmts_in, walk_no_nested, func_params
+from ..model import HAND_WRITTEN, Repo, call_name, calls_in, norm, stmts_in, walk_no_nested, func_params
 
 AGG = "cminx.aggregator"
 
@@ -347,6 +347,25 @@ def _indent_from_closing_line(t, o: Outcome, LINES) -> Tuple[bool, str]:
 
 
 # ----------------------------------------------------------------------
+def _is_module_flag(o: Outcome, lv, DOCS) -> bool:
+    """('loopval', lid, var): a flag that starts False and is set True exactly on the elements of the entry list that are
+    module doccomments - 'the file has a module doccomment'."""
+    lp = o.state.loops.get(lv[1])
+    if lp is None or lp["iter"] != DOCS or lp["pre"].get(lv[2]) != const(False):
+        return False
+    is_mod = ("isinstance", ("elem", lv[1], None), "ModuleDocumentation")
+    some = False
+    for oc in lp["outcomes"]:
+        conds = [(c, v) for c, v in oc["conds"]]
+        sets = lv[2] in oc["assign"]
+        if sets and oc["assign"][lv[2]] != const(True):
+            return False
+        if sets != ((is_mod, True) in conds):
+            return False
+        some = some or sets
+    return some
+
+
 def rule_document_order(rep: Report, repo: Repo, r_order: str, r_module: Optional[str] = None) -> None:
     rep.rule(r_order, "Documenter.process_docs renders the entry list front to back on the top-level writer, after inserting a "
                       "default module entry at index 0 only when none exists; no sort/reverse/filter on the way; process() hands it "
@@ -371,6 +390,8 @@ def rule_document_order(rep: Report, repo: Repo, r_order: str, r_module: Optiona
         has_mod = None
         for a, v in o.conds:
             if a[0] == "nonempty" and "ModuleDocumentation" in show(a[1]):
+                has_mod = v
+            elif a[0] == "truthy" and a[1][0] == "loopval" and _is_module_flag(o, a[1], DOCS):
                 has_mod = v
         ins = [e for e in o.effects if e[0] == "insert" and e[1] == DOCS]
         other_mut = [e for e in o.effects if e[0] in ("push", "remove", "pop", "popidx", "mutcall", "extend", "delidx", "storeidx",
@@ -419,11 +440,19 @@ def rule_document_order(rep: Report, repo: Repo, r_order: str, r_module: Optiona
             if e[0] != "loop":
                 continue
             lp = o.state.loops[e[1]]
-            if "ModuleDocumentation" not in show(lp["iter"]):
+            filtered_iter = "ModuleDocumentation" in show(lp["iter"])
+            is_mod = ("isinstance", ("elem", e[1], None), "ModuleDocumentation")
+            touches = [oc for oc in lp["outcomes"] if any(x[0] == "store" and x[2] in ("title", "name") for x in oc["effects"])]
+            if not filtered_iter and not (lp["iter"] == DOCS and touches):
                 continue
             seen_loop = True
             elem_name = ("attr", ("elem", e[1], None), "name")
             for oc in lp["outcomes"]:
+                if not filtered_iter and (is_mod, True) not in [(c, v) for c, v in oc["conds"]]:
+                    # an element that is not a module doccomment must not touch the title or a name
+                    if oc in touches:
+                        both += 1
+                    continue
                 sets_title = any(x[0] == "store" and x[1] == attr(SELF, "writer") and x[2] == "title" and x[3] == elem_name for x in oc["effects"])
                 other_title = any(x[0] == "store" and x[2] == "title" and x[3] != elem_name for x in oc["effects"])
                 sets_default = any(x[0] == "store" and x[1] == ("elem", e[1], None) and x[2] == "name" and x[3] == attr(SELF, "module_name")
@@ -448,14 +477,15 @@ def rule_document_order(rep: Report, repo: Repo, r_order: str, r_module: Optiona
     # process(): passes the aggregator's list
     pfn = ci.methods.get("process")
     ok_p = False
+    from .fsrules import resolve_locals
     for c in calls_in(pfn):
         if call_name(c) == "self.process_docs" and c.args:
             lm = listener_model(repo)
-            ok_p = norm(c.args[0]) == f"self.aggregator.{lm.roles['entries']}"
+            ok_p = norm(resolve_locals(c.args[0], pfn)) == f"self.aggregator.{lm.roles['entries']}"
     rep.check(ok_p, r_order, f"cminx.documenter:{doc_cls}.process", "process_docs(self.aggregator.<entries>)",
               "process() renders something other than the listener's entry list (copy sorted/filtered on the way)")
     # the walker walks with the aggregator
-    ok_w = any(call_name(c).endswith(".walk") and c.args and norm(c.args[0]) == "self.aggregator" for c in calls_in(pfn))
+    ok_w = any(call_name(c).endswith(".walk") and c.args and norm(resolve_locals(c.args[0], pfn)) == "self.aggregator" for c in calls_in(pfn))
     rep.check(ok_w, r_order, f"cminx.documenter:{doc_cls}.process", "walker.walk(self.aggregator, tree)", "the tree is not walked with the aggregator")
     rep.floor(r_order, 6, "document order facts")
     if r_module:
@@ -780,3 +810,63 @@ def _trims_cr(t) -> Tuple[bool, str]:
         if kind == "re" and isinstance(arg, str) and ("\\s" in arg or "\\r" in arg or "\r" in arg):
             return True, ""
     return False, "it is trimmed of blanks/tabs only: " + "; ".join(f"{k}({a if k == 're' else [show(z) for z in a]})" for k, a in seen)[:100]
+
+
+# ----------------------------------------------------------------------
+MATCHING_METHODS = {"replace": 0, "split": 0, "rsplit": 0, "partition": 0, "rpartition": 0, "startswith": 0, "endswith": 0,
+                    "find": 0, "rfind": 0, "index": 0, "rindex": 0, "count": 0, "removeprefix": 0, "removesuffix": 0}
+RE_FUNCS = {"re.sub", "re.subn", "re.split", "re.match", "re.search", "re.fullmatch", "re.findall", "re.finditer", "re.compile"}
+
+
+def _lf_only_constant(v: str, is_regex: bool) -> bool:
+    """A constant used for *matching* that names a line feed together with other characters but knows no carriage return."""
+    if is_regex:
+        has_lf = "\n" in v or "\\n" in v
+        has_cr = "\r" in v or "\\r" in v or "\\R" in v
+        other = v.replace("\\n", "").replace("\n", "").strip("^$")
+        return has_lf and not has_cr and bool(other) and other not in ("+", "*", "?", "()", "(?:)+")
+    return "\n" in v and "\r" not in v and v.strip("\n") != ""
+
+
+def lf_only_hits(tree: ast.AST):
+    out = []
+    for n in ast.walk(tree):
+        if isinstance(n, ast.Call):
+            nm = call_name(n)
+            if nm in RE_FUNCS and n.args and isinstance(n.args[0], ast.Constant) and isinstance(n.args[0].value, str):
+                if _lf_only_constant(n.args[0].value, True):
+                    out.append((n, f"{nm}({n.args[0].value!r}, ...)"))
+            elif isinstance(n.func, ast.Attribute) and n.func.attr in MATCHING_METHODS and n.args \
+                    and isinstance(n.args[0], ast.Constant) and isinstance(n.args[0].value, str):
+                if _lf_only_constant(n.args[0].value, False):
+                    out.append((n, f".{n.func.attr}({n.args[0].value!r})"))
+        elif isinstance(n, ast.Compare) and len(n.ops) == 1 and isinstance(n.ops[0], (ast.In, ast.NotIn, ast.Eq, ast.NotEq)):
+            for side in (n.left, n.comparators[0]):
+                if isinstance(side, ast.Constant) and isinstance(side.value, str) and _lf_only_constant(side.value, False):
+                    out.append((n, f"comparison with {side.value!r}"))
+    return out
+
+
+def rule_no_lf_only_matching(rep: Report, repo: Repo, rule: str) -> None:
+    """C04-R6: structural part of the CRLF clause - the package never *matches* a multi-character pattern that contains a line
+    feed but no (optional) carriage return.  Such an operation treats 'x\\n' and 'x\\r\\n' differently in more than the line
+    ending (a continuation is joined in one file and not in the other)."""
+    import os
+    from ..core import VERIF_DIR
+    rep.rule(rule, "no replace/split/startswith/endswith/find/compare/regular expression in the package matches a constant that "
+                   "combines a line feed with other characters without allowing a carriage return (a lone '\\n' separator is "
+                   "line structure and allowed)")
+    n = 0
+    for mod in HAND_WRITTEN:
+        m = repo.module(mod)
+        tree = getattr(m, "orig_tree", None) or m.tree
+        for node, desc in lf_only_hits(tree):
+            n += 1
+            rep.bad(rule, mod, desc, "this operation only recognises the LF form of a line end: the LF and the CRLF version of the "
+                    "same file differ in more than their line-ending characters", witness='set(V "a \\<CRLF>b")  vs  set(V "a \\<LF>b")')
+    ctrl = ast.parse(open(os.path.join(VERIF_DIR, "controls", "lf_only.py")).read())
+    hits = len(lf_only_hits(ctrl))
+    if hits != 4:
+        raise AnalysisError(f"positive control controls/lf_only.py: {hits} hits, expected 4")
+    rep.ok(rule, "controls/lf_only.py", "positive control matched 4 LF-only operations, none of the 4 CR-aware / line-structure twins")
+    rep.ok(rule, "cminx.*", f"{n} LF-only matching operations in {len(HAND_WRITTEN)} modules")
